@@ -161,6 +161,20 @@ def base_universe(fx_bytes=4000, mx=1, rulesets=("all", "format"), rc_rulesets=(
             c["id"] += f"|rules={c['rules']}"
             c["stratum"] += f"|{c['rules']}"
             u.append(c)
+    # quoting sweep: literals whose body contains / ends in the other quote character, raw / bytes prefixes,
+    # triple quotes, doubled and backslash escapes - inputs on which a quote-style rewrite can stop lexing
+    QS = [
+        "SELECT r\'\'\'Here\'s a \"\'\'\' AS a", "SELECT \'\'\'a\"\'\'\' AS a, \"b\" AS c", "SELECT \"it\'s\" AS a, \'x\' AS b", "SELECT \'a\'\'b\' AS a, \"c\"\"d\" AS b",
+        "SELECT r\"a\\\"b\" AS a, r\'c\' AS d", "SELECT b\'ab\' AS a, B\"cd\" AS b, rb\'x\"\' AS c", "SELECT \"\"\"tri \'q\' \"\"\" AS a, \'x\' AS b", "SELECT \'x\' AS a, r\"\"\"ends with \'\"\"\" AS b",
+        "SELECT \'\' AS e, \"\" AS f, \'\\\\\' AS g", "SELECT \"a\" AS a, \'b\"\' AS b, \"c\'\" AS c", "SELECT \'x\' AS a WHERE b = \"y\'s\" AND c = R\'\'\'z\"\'\'\'",
+    ]
+    for d in ("bigquery", "mysql", "sparksql", "databricks", "hive", "ansi", "postgres"):
+        for i, q in enumerate(QS):
+            for pref in ("", "consistent", "double_quotes", "single_quotes"):
+                c = {"id": f"qs:{d}:{i}:{pref or 'dflt'}|rules=all", "kind": "lit", "source": q + "\n", "dialect": d, "rules": "all", "stratum": f"qs:{d}"}
+                if pref:
+                    c["sections"] = {"rules": {"convention.quoted_literals": {"preferred_quoted_literal_style": pref}}}
+                u.append(c)
     # width sweep: lines whose length straddles max_line_length once another rule has inserted tokens
     # (implicit alias -> AS, JOIN -> INNER JOIN, ...): interplay of measuring and re-breaking rules
     for n in range(50, 80):
